@@ -99,6 +99,11 @@ class SyncWorker(base.Worker):
                     if listener == self.PIPE[0]:
                         continue
 
+                    if not self.alive:
+                        # max_requests was reached while serving the
+                        # previous ready listener: accept nothing more
+                        break
+
                     try:
                         self.accept(listener)
                     except OSError as e:
